@@ -77,18 +77,19 @@ func (v Val) Lit() string { return v.Show() }
 // quote renders s as a double quoted Suneido string literal: printable
 // ASCII except `"` and `\` literally, everything else as \xhh.
 func quote(s string) string {
-	var sb strings.Builder
-	sb.WriteByte('"')
+	const hexdigits = "0123456789abcdef"
+	b := make([]byte, 0, len(s)+2)
+	b = append(b, '"')
 	for i := 0; i < len(s); i++ {
 		c := s[i]
 		if c >= 0x20 && c < 0x7f && c != '"' && c != '\\' {
-			sb.WriteByte(c)
+			b = append(b, c)
 		} else {
-			fmt.Fprintf(&sb, "\\x%02x", c)
+			b = append(b, '\\', 'x', hexdigits[c>>4], hexdigits[c&15])
 		}
 	}
-	sb.WriteByte('"')
-	return sb.String()
+	b = append(b, '"')
+	return string(b)
 }
 
 func lowerASCII(s string) string {
